@@ -348,7 +348,8 @@ func run(c Case) vkit.Result {
 		}
 	}
 	// behaviour: the issued key authorizes the intended channel and neither its parent level nor a sibling
-	if !k.IsExpired() && k.Permissions() != 0 && !strings.Contains(wantChannel, "+") {
+	farFuture := c.TTL == 0 || c.TTL >= 3600 // a key about to expire may expire between the two calls below
+	if farFuture && !k.IsExpired() && k.Permissions() != 0 && !strings.Contains(wantChannel, "+") {
 		need := k.Permissions() & -k.Permissions() // lowest permission bit
 		lv := vkit.Levels(strings.TrimSuffix(wantChannel, "#/"))
 		probe := func(ch string) bool {
